@@ -497,12 +497,23 @@ func main() {
 						d0 := env.NewDst()
 						runPattern(wsflate.NewWriter(d0, c.mk), p.data, pattern)
 						for j := 0; j < len(d0.Calls); j++ {
-							for _, transient := range []bool{true, false} {
-								p, c, pattern, j, transient := p, c, pattern, j, transient
+							for _, mode := range []string{"transient", "permanent", "transient-temporary-0-bytes", "transient-temporary-1-byte", "transient-temporary-half", "transient-timeout-half"} {
+								p, c, pattern, j, mode := p, c, pattern, j, mode
+								transient := mode != "permanent"
 								t.Do(func() string {
-									return fmt.Sprintf("payload=%s compressor=%s pattern=%s destination call %d fails (transient=%v)", p.name, c.name, pattern, j, transient)
+									return fmt.Sprintf("payload=%s compressor=%s pattern=%s destination call %d fails (%s)", p.name, c.name, pattern, j, mode)
 								}, func() *explore.Fail {
 									d := &flakyDst{failAt: j, transient: transient}
+									switch mode {
+									case "transient-temporary-0-bytes":
+										d.err = env.TempErr{}
+									case "transient-temporary-1-byte":
+										d.err, d.partial = env.TempErr{}, 1
+									case "transient-temporary-half":
+										d.err, d.partial = env.TempErr{}, -1
+									case "transient-timeout-half":
+										d.err, d.partial = env.TempErr{IsTimeout: true}, -1
+									}
 									w := wsflate.NewWriter(d, c.mk)
 									err := runPattern(w, p.data, pattern)
 									if err != nil || w.Err() != nil {
@@ -1123,13 +1134,27 @@ type flakyDst struct {
 	calls     int
 	failAt    int
 	transient bool
+	// partial: the failing call accepts this many bytes (-1: half) before it reports err
+	partial int
+	err     error
 }
 
 func (f *flakyDst) Write(p []byte) (int, error) {
 	i := f.calls
 	f.calls++
 	if i == f.failAt || (!f.transient && i > f.failAt) {
-		return 0, env.ErrInjected
+		n := f.partial
+		if n < 0 {
+			n = len(p) / 2
+		}
+		if n > len(p) {
+			n = len(p)
+		}
+		f.buf.Write(p[:n])
+		if f.err != nil {
+			return n, f.err
+		}
+		return n, env.ErrInjected
 	}
 	return f.buf.Write(p)
 }
